@@ -518,6 +518,172 @@ template <class P> static void std_cases() {
     }
 }
 
+// ---- std containers: multi-step sequences over ONE container object -----------------------------------------
+// std.hpp provides fill_histogram + cumulative_histogram for std::vector<T>, std::array<T,N> and std::map<T1,T2>
+// (nothing for unordered_map / deque / list).  A sequence starts from a container in a given state (fresh empty,
+// pre-sized too short, exactly, longer -- with stale counts) and applies steps (view of 8- or 16-bit depth, gray or
+// rgb, some size, accumulate or not); after every step the container must hold exactly: replace -> the counts of
+// this view and nothing else; accumulate -> everything it held before plus the counts of this view.  The sparse
+// histogram class, driven through the same steps, is the second reference.
+typedef std::map<long, long> counts_t;
+struct seq_step { int vt; int w, h; bool acc; };    // vt: 0 gray8, 1 rgb8, 2 gray16, 3 rgb16
+static long step_max(seq_step const& st) { return st.vt < 2 ? 255 : 65535; }
+
+template <class P, class Fn> static void with_view_t(seq_step const& st, vh::rng& r, counts_t& counts, Fn fn) {
+    typedef typename gil::channel_type<P>::type ch_t;
+    typedef gil::pixel<ch_t, gil::gray_layout_t> gray_t;
+    content<P> c;
+    auto wd = content<P>::make_windows(r, 0, 1 + (long)r.below(4));
+    c.make(st.w, st.h, r, wd);
+    auto v = c.view();
+    for (int y = 0; y < c.h; ++y) for (int x = 0; x < c.w; ++x) { gray_t g; gil::color_convert(v(x, y), g); ++counts[(long)(ch_t)g[0]]; }
+    fn(v, gil::color_converted_view<gray_t>(v));
+}
+template <class Fn> static void with_view(seq_step const& st, vh::rng& r, counts_t& counts, Fn fn) {
+    switch (st.vt) {
+    case 0: with_view_t<gil::gray8_pixel_t>(st, r, counts, fn); break;
+    case 1: with_view_t<gil::rgb8_pixel_t>(st, r, counts, fn); break;
+    case 2: with_view_t<gil::gray16_pixel_t>(st, r, counts, fn); break;
+    default: with_view_t<gil::rgb16_pixel_t>(st, r, counts, fn); break;
+    }
+}
+static const char* vt_name(int vt) { static const char* n[] = {"gray8", "rgb8", "gray16", "rgb16"}; return n[vt]; }
+static std::string step_str(seq_step const& st) { return vh::cat(vt_name(st.vt), " ", st.w, "x", st.h, st.acc ? " accumulate" : " replace"); }
+// the first two steps enumerate depth x accumulate systematically, the rest is seeded
+static std::vector<seq_step> make_sequence(int combo, vh::rng& r, int only_depth /* -1: both */) {
+    std::vector<seq_step> q;
+    const int len = 3 + (int)r.below(2);
+    for (int i = 0; i < len; ++i) {
+        seq_step st;
+        int deep = i == 0 ? (combo & 1) : i == 1 ? ((combo >> 2) & 1) : (int)r.below(2);
+        if (only_depth >= 0) deep = only_depth;
+        st.vt = deep * 2 + (int)r.below(2);
+        st.acc = i == 0 ? ((combo >> 1) & 1) : i == 1 ? ((combo >> 3) & 1) : r.coin();
+        st.w = r.range(i == 0 ? 0 : 1, 6); st.h = r.range(1, 6);
+        q.push_back(st);
+    }
+    return q;
+}
+static void apply_model(counts_t& model, counts_t const& counts, bool acc) {
+    if (!acc) model.clear();
+    for (auto const& kv : counts) model[kv.first] += kv.second;
+}
+static void sparse_step_check(gil::histogram<int>& hs, counts_t const& model, const std::string& cls, const std::string& what) {
+    model_t M; for (auto const& kv : model) if (kv.second) M[karr{{kv.first, 0, 0, 0}}] = kv.second;
+    std::string why;
+    if (!hist_equals(hs, M, &why)) V("std-seq.sparse-ref." + cls, [&] { return vh::cat(what, " sparse histogram driven through the same steps: ", why); });
+}
+
+static void std_sequence_cases() {
+    const int rounds = vh::thorough() ? 4 : 1;
+    // ---------------- std::vector<int>
+    static const char* vinit[] = {"empty", "short", "exact", "longer"};
+    for (int rd = 0; rd < rounds; ++rd) for (int init = 0; init < 4; ++init) for (int combo = 0; combo < 16; ++combo) {
+        if (!vh::begin_case(std::string("std-seq.vector.") + vinit[init], vh::cat("combo=", combo, ",round=", rd))) continue;
+        vh::rng r = vh::case_rng();
+        std::vector<seq_step> q = make_sequence(combo, r, -1);
+        std::vector<int> hv; counts_t model; gil::histogram<int> hs;
+        const long first_max = step_max(q[0]);
+        if (init == 1) hv.assign(10, 7);
+        if (init == 2) { hv.resize(first_max + 1); for (size_t i = 0; i < hv.size(); ++i) hv[i] = (int)(i % 5); }
+        if (init == 3) { hv.resize(first_max + 1 + 1000); for (size_t i = 0; i < hv.size(); ++i) hv[i] = (int)(i % 3 + 1); }
+        for (size_t i = 0; i < hv.size(); ++i) if (hv[i]) { model[(long)i] = hv[i]; hs((int)i) = hv[i]; }
+        std::string hist;
+        for (size_t k = 0; k < q.size(); ++k) {
+            seq_step st = q[k];
+            const long mx = step_max(st);
+            const size_t before = hv.size();
+            const char* szc = before == 0 ? "empty" : before < (size_t)mx + 1 ? "shorter" : before == (size_t)mx + 1 ? "exact" : "longer";
+            const std::string cls = vh::cat(st.acc ? "accumulate" : "replace", ".", szc, ".d", mx == 255 ? 8 : 16);
+            hist += (k ? "; " : "") + step_str(st);
+            auto what = [&] { return vh::cat("vector<int> initially ", vinit[init], ", steps: ", hist, " (size before this step ", before, ")"); };
+            counts_t counts;
+            with_view(st, r, counts, [&](auto const& v, auto const& gv) { gil::fill_histogram(v, hv, st.acc); gil::fill_histogram(gv, hs, 1, st.acc); });
+            apply_model(model, counts, st.acc);
+            vh::evals(1);
+            vh::obs("std-seq.vector." + cls);
+            if (hv.size() < (size_t)mx + 1) V("std-seq.vector.size." + cls, [&] { return vh::cat(what(), ": size ", hv.size(), " < max+1 = ", mx + 1); });
+            bool bad = false;
+            for (size_t i = 0; i < hv.size() && !bad; ++i) { auto it = model.find((long)i); long e = it == model.end() ? 0 : it->second; if (hv[i] != e) { bad = true; V("std-seq.vector.bins." + cls, [&] { return vh::cat(what(), ": bin ", i, " = ", hv[i], ", expected ", e); }); } }
+            for (auto it = model.begin(); it != model.end() && !bad; ++it) if (it->second && (size_t)it->first >= hv.size()) { bad = true; V("std-seq.vector.lost-bins." + cls, [&] { return vh::cat(what(), ": bin ", it->first, " (count ", it->second, ") is gone, size is now ", hv.size()); }); }
+            sparse_step_check(hs, model, "vector." + cls, what());
+            // cumulative form of the container as it is now
+            { auto cv = gil::cumulative_histogram(hv); long run = 0; bool cbad = cv.size() != hv.size();
+              for (size_t i = 0; i < hv.size() && !cbad; ++i) { run += hv[i]; if (cv[i] != run) cbad = true; }
+              if (cbad) V("std-seq.vector.cumulative." + cls, [&] { return vh::cat(what(), ": cumulative vector differs from the prefix sums"); }); }
+            if (bad) {   // continue the sequence from what the container really holds
+                model.clear(); for (size_t i = 0; i < hv.size(); ++i) if (hv[i]) model[(long)i] = hv[i];
+                hs.clear(); for (auto const& kv : model) hs((int)kv.first) = (double)kv.second;
+            }
+        }
+        vh::distinct(q.size());
+        if (init == 1 && combo == 6 && rd == 0) vh::sample("std sequence: vector<int>(10,7), then " + hist);
+    }
+    // ---------------- std::map<int,int>
+    static const char* minit[] = {"empty", "stale"};
+    for (int rd = 0; rd < rounds; ++rd) for (int init = 0; init < 2; ++init) for (int combo = 0; combo < 16; ++combo) {
+        if (!vh::begin_case(std::string("std-seq.map.") + minit[init], vh::cat("combo=", combo, ",round=", rd))) continue;
+        vh::rng r = vh::case_rng();
+        std::vector<seq_step> q = make_sequence(combo, r, -1);
+        std::map<int, int> hm; counts_t model; gil::histogram<int> hs;
+        if (init == 1) { hm[3] = 5; hm[200] = 2; hm[40000] = 9; hm[70000] = 4; }
+        for (auto const& kv : hm) { model[kv.first] = kv.second; hs(kv.first) = kv.second; }
+        std::string hist;
+        for (size_t k = 0; k < q.size(); ++k) {
+            seq_step st = q[k];
+            const std::string cls = vh::cat(st.acc ? "accumulate" : "replace", ".", hm.empty() ? "empty" : "filled", ".d", step_max(st) == 255 ? 8 : 16);
+            hist += (k ? "; " : "") + step_str(st);
+            auto what = [&] { return vh::cat("map<int,int> initially ", minit[init], ", steps: ", hist); };
+            counts_t counts;
+            with_view(st, r, counts, [&](auto const& v, auto const& gv) { gil::fill_histogram(v, hm, st.acc); gil::fill_histogram(gv, hs, 1, st.acc); });
+            apply_model(model, counts, st.acc);
+            vh::evals(1);
+            vh::obs("std-seq.map." + cls);
+            bool bad = false;
+            for (auto const& kv : hm) { auto it = model.find(kv.first); long e = it == model.end() ? 0 : it->second; if (kv.second != e) { bad = true; V("std-seq.map.bins." + cls, [&] { return vh::cat(what(), ": bin ", kv.first, " = ", kv.second, ", expected ", e); }); break; } }
+            for (auto it = model.begin(); it != model.end() && !bad; ++it) if (it->second && !hm.count((int)it->first)) { bad = true; V("std-seq.map.lost-bins." + cls, [&] { return vh::cat(what(), ": bin ", it->first, " (count ", it->second, ") is gone"); }); }
+            sparse_step_check(hs, model, "map." + cls, what());
+            { auto cm = gil::cumulative_histogram(hm); long run = 0; bool cbad = cm.size() != hm.size();
+              for (auto const& kv : hm) { run += kv.second; auto it = cm.find(kv.first); if (it == cm.end() || it->second != run) cbad = true; }
+              if (cbad) V("std-seq.map.cumulative." + cls, [&] { return vh::cat(what(), ": cumulative map differs from the prefix sums"); }); }
+            if (bad) { model.clear(); for (auto const& kv : hm) if (kv.second) model[kv.first] = kv.second; hs.clear(); for (auto const& kv : model) hs((int)kv.first) = (double)kv.second; }
+        }
+        vh::distinct(q.size());
+    }
+    // ---------------- std::array<int, max+1> (one depth per array: other sizes rescale the bins, which C19 does not state)
+    static const char* ainit[] = {"zero", "stale"};
+    for (int rd = 0; rd < rounds; ++rd) for (int deep = 0; deep < 2; ++deep) for (int init = 0; init < 2; ++init) for (int combo = 0; combo < 16; combo += 2) {
+        if (!vh::begin_case(vh::cat("std-seq.array", deep ? 65536 : 256, ".", ainit[init]), vh::cat("combo=", combo, ",round=", rd))) continue;
+        vh::rng r = vh::case_rng();
+        std::vector<seq_step> q = make_sequence(combo, r, deep);
+        counts_t model; std::string hist;
+        std::unique_ptr<std::array<int, 256>> a8(new std::array<int, 256>); std::unique_ptr<std::array<int, 65536>> a16(new std::array<int, 65536>);
+        a8->fill(0); a16->fill(0);
+        const size_t NB = deep ? 65536 : 256;
+        auto at = [&](size_t i) -> int& { return deep ? (*a16)[i] : (*a8)[i]; };
+        if (init == 1) for (size_t i = 0; i < NB; ++i) { at(i) = (int)(i % 4); if (at(i)) model[(long)i] = at(i); }
+        for (size_t k = 0; k < q.size(); ++k) {
+            seq_step st = q[k];
+            const std::string cls = vh::cat(st.acc ? "accumulate" : "replace", ".d", deep ? 16 : 8);
+            hist += (k ? "; " : "") + step_str(st);
+            auto what = [&] { return vh::cat("array<int,", NB, "> initially ", ainit[init], ", steps: ", hist); };
+            counts_t counts;
+            with_view(st, r, counts, [&](auto const& v, auto const&) { if (deep) gil::fill_histogram(v, *a16, st.acc); else gil::fill_histogram(v, *a8, st.acc); });
+            apply_model(model, counts, st.acc);
+            vh::evals(1);
+            vh::obs("std-seq.array." + cls);
+            bool bad = false;
+            for (size_t i = 0; i < NB && !bad; ++i) { auto it = model.find((long)i); long e = it == model.end() ? 0 : it->second; if (at(i) != e) { bad = true; V("std-seq.array.bins." + cls, [&] { return vh::cat(what(), ": bin ", i, " = ", at(i), ", expected ", e); }); } }
+            bool cbad = false; long run = 0;
+            if (deep) { std::unique_ptr<std::array<int, 65536>> c(new std::array<int, 65536>(gil::cumulative_histogram(*a16))); for (size_t i = 0; i < NB && !cbad; ++i) { run += at(i); if ((*c)[i] != run) cbad = true; } }
+            else { auto c = gil::cumulative_histogram(*a8); for (size_t i = 0; i < NB && !cbad; ++i) { run += at(i); if (c[i] != run) cbad = true; } }
+            if (cbad) V("std-seq.array.cumulative." + cls, [&] { return vh::cat(what(), ": cumulative array differs from the prefix sums"); });
+            if (bad) { model.clear(); for (size_t i = 0; i < NB; ++i) if (at(i)) model[(long)i] = at(i); }
+        }
+        vh::distinct(q.size());
+    }
+}
+
 // ---- bin-width sweep: every channel value (8 bit) / every bin boundary (16 bit) x the whole range of widths --------
 // The bin of a value is value / width (C++ integer division); an implementation that goes through floating point,
 // shifts, reciprocal multiplication ... differs only for particular (value, width) pairs near bin boundaries.
@@ -602,6 +768,8 @@ int main(int argc, char** argv) {
 #elif C19_PART == 6
     binning_cases<gil::gray16_pixel_t>();
     binning_cases<gil::gray16s_pixel_t>();
+#elif C19_PART == 7
+    std_sequence_cases();
 #endif
     return vh::finish();
 }
